@@ -19,6 +19,7 @@ package builder
 import (
 	"fmt"
 	"sort"
+	"strconv"
 	"strings"
 
 	"golang.org/x/exp/maps"
@@ -347,7 +348,9 @@ func newExplainer(fontInfo *sfnt.Font) *explainer {
 		a, b := cmap.CodeRange()
 		for r := a; r <= b; r++ {
 			gid := cmap.Lookup(r)
-			if gid != 0 {
+			if gid != 0 && strconv.IsPrint(r) {
+				// Non-printable characters (e.g. U+00A0) would be written
+				// as \u escapes, which the parser does not understand.
 				mappings[gid] = fmt.Sprintf("%q", string([]rune{r}))
 			}
 		}
